@@ -14,7 +14,7 @@ ENGINE = "threadsim+seqsim"
 LEVEL = "fault_enumeration"
 ISOLATE = True
 RUN_TIMEOUT = 120
-RUNS = {"quick": 6000, "thorough": 120000}
+RUNS = {"quick": 8000, "thorough": 120000}
 CHUNK = 50
 RULE = ("two run kinds. (A, fault enumeration, even run indices) a seeded operation (any public mutator or read, root or "
         "nested child, all 6 JSON families, unbuffered / inside obj.buffered / inside buffer_backend, plus context exits "
